@@ -27,8 +27,14 @@ def run(ctx, out):
     rng_u = C.rng_for(seed, PROP, 'ulp')
     recs_foot = [G.gen_foot_record(rng_u) for _ in range(60 if tier == 'quick' else 600)]
     K.count_foot(recs_foot, out)
-    K.check_cl(recs_cl + recs_foot, out, KEEP, PROP, 'cl')
+    # every 5th record dated where epochs leave the 32-bit range (around 2038 / 2106 / 1901, centuries away); own stream
+    recs_cl = G.far_share(recs_cl, C.rng_for(seed, PROP, 'far'))
+    # environment stage: a few of the records once more, load + classify in a child process under `python -O` (twice)
+    # and under two other variants of harness.envcheck; judged like the rest and compared with the default run
+    recs_env = K.env_records(recs_cl, C.rng_for(seed, PROP, 'env'), seed)
+    K.check_cl(recs_cl + recs_foot + recs_env, out, KEEP, PROP, 'cl')
     K.command_probes(out, PROP)
+    large_stage(seed, tier, out)
     if tier == 'thorough':
         field_samples(out)
     out.rule = ('GS: random bipartite candidate graphs (<=6x6, a third with ties) through find_stable_matching; '
@@ -39,12 +45,38 @@ def run(ctx, out):
                 'from the database); "foot" records: (step, jump threshold) pairs for which threshold x step rounds '
                 'differently under different orders of evaluation, rises beginning with increments exactly equal to each '
                 'candidate product on dry samples after a light shower; '
-                'boundary probes: no data interval, infinite level, NaN threshold. Non-trivial: at least one pair recorded and '
+                'boundary probes: no data interval, infinite level, NaN threshold; every 5th CL record dated beyond the '
+                '32-bit range of epochs (straddling / after 2^31 and 2^32, before -2^31, years 1000..5000); environment '
+                'stage: 4 records through load + classify in a child process (python -O twice, two of TZ=.. / -vvv / other '
+                'directory / random hash seed), judged alike and compared with the default run; LARGE-INPUT stage, oracle '
+                'only (nothing of it is sent to Coq: reading the literals would dominate): find_stable_matching on chain '
+                'graphs of 1500-3000 links (ascending / shuffled / descending insertion, some with flipped links), '
+                'match_storms and the whole CLI on one gap-free record holding a displacement chain of 1500+ storms '
+                '(about 10^4 samples: every rise spans two bursts, every burst two rises, each rise prefers the next storm). '
+                'Non-trivial: at least one pair recorded and '
                 'some storm or rise has >= 2 candidates (contention); distinct by flag vectors / graph.')
     out.samples = [dict(level='MS', record=recs[0]), dict(level='GS', cands=str(graphs[1][0]), prefs=str(graphs[1][1]))]
     out.assumptions += ['schedule of the Python set is not observable: exact comparison when the outcome is '
                         'schedule independent in the model (3 schedules agree), membership in the set of all '
                         'model outcomes for small tie cases, oracle only for large tie cases']
+
+
+def large_stage(seed, tier, out):
+    """Inputs sized past what small cases reach: long displacement chains (the matching must finish and be one-to-one
+    whatever the length of the chain of displacements), at function level and through the command line."""
+    rng = C.rng_for(seed, PROP, 'large')
+    if tier == 'quick':
+        g_sizes = [rng.randrange(1500, 3000) for _ in range(3)]
+        ms_links, cl_links = [rng.randrange(1500, 2500)], [rng.randrange(1500, 2000)]
+    else:
+        g_sizes = [rng.randrange(1500, 3000) for _ in range(6)] + [rng.randrange(3000, 12000) for _ in range(4)]
+        ms_links = [rng.randrange(1500, 3000), rng.randrange(1100, 1500), rng.randrange(3000, 4500)]
+        cl_links = [rng.randrange(1500, 2500), rng.randrange(1100, 1500), rng.randrange(2500, 3500)]
+    K.check_gs_large(K.chain_graph_specs(rng, g_sizes), out, KEEP, PROP)
+    K.check_ms([G.gen_chain_spec(rng, n, cut=(0.0 if k == 0 else 0.002)) for k, n in enumerate(ms_links)],
+               out, KEEP, PROP, 'ms_large', coq=False)
+    K.check_cl([G.gen_chain_spec(rng, n, cut=(0.0 if k == 0 else 0.002)) for k, n in enumerate(cl_links)],
+               out, KEEP, PROP, 'cl_large', coq=False)
 
 
 def field_samples(out):
